@@ -825,8 +825,9 @@ def run(res):
         "the syntax can express, label and virtual-register names that are identifiers and do not collide with register names); "
         "ill-formed inputs are compared model vs implementation only",
         "the bytes appended by the encoder and the size/position of the unresolved displacement are inputs of the log-line model (C01/C02/C03 own them)",
-        "Builder nodes: inst/label/align/embed-data/comment/section through Formatter::format_node and format_node_list are modelled and tied; "
-        "Compiler-only nodes (func/ret/invoke/sentinel/const-pool/embed-label) and the kPositions prefix are not",
+        "Builder nodes: inst/label/align/embed-data/embed-label/embed-label-delta/comment/section and the kPositions prefix through "
+        "Formatter::format_node and format_node_list are modelled, monitored and tied (parse-back proved for all of them except "
+        "`.label (a - b)`, inline comments and the position prefix); func/ret/invoke/sentinel/const-pool nodes are not modelled",
     ]
     broken = []
 
